@@ -214,3 +214,49 @@ func VerifTxnThreeWay() {
 		verifrt.Assert(tm.Confirm("t2") == nil, "t2-confirm-accepted")
 	}
 }
+
+// VerifTxnShortTimeout: a transaction whose timeout is zero, negative or one nanosecond
+// (protobuf-valid request values) is applied; the client then does nothing (op 0), confirms
+// (op 1) or cancels (op 2) right away, racing with the timer that is due at once. Whatever
+// happens: no panic, the transaction ends kept or rolled back exactly once in agreement with
+// the client's answer, and the manager is free for the next transaction afterwards.
+func VerifTxnShortTimeout() {
+	rb := &vRollbacker{}
+	tm := NewTransactionManager(rb)
+	tr := NewTransaction("t1", tm)
+	tr.SetTimeout([]time.Duration{0, -time.Second, time.Nanosecond}[verifrt.Choice("timeout", 3)])
+	guard, err := tm.RegisterTransaction(context.Background(), tr)
+	verifrt.Assert(err == nil, "register-ok")
+	guard.Success()
+	guard.Done()
+	_ = tr.StartRollbackTimer()
+	op := verifrt.Choice("op", 3)
+	var cerr error
+	done := op == 0
+	if op != 0 {
+		go func() {
+			if op == 1 {
+				cerr = tm.Confirm("t1")
+			} else {
+				cerr = tm.Cancel(context.Background(), "t1")
+			}
+			done = true
+		}()
+	}
+	verifrt.AwaitQuiescence()
+	verifrt.Advance(time.Second)
+	verifrt.AwaitQuiescence()
+	verifrt.Reach("quiescent")
+	verifrt.Assert(done, "client-call-returned")
+	verifrt.Assert(rb.rollbacks <= 1, "at-most-one-rollback")
+	switch {
+	case op == 1 && cerr == nil:
+		verifrt.Assert(rb.rollbacks == 0, "confirmed-transaction-not-rolled-back")
+	default:
+		// nothing done, cancelled, or Confirm refused because the timer was first: rolled back once
+		verifrt.Assert(rb.rollbacks == 1, "unconfirmed-transaction-rolled-back-once")
+	}
+	tr2 := NewTransaction("t2", tm)
+	_, err = tm.RegisterTransaction(context.Background(), tr2)
+	verifrt.Assert(err == nil, "manager-free-afterwards")
+}
